@@ -244,13 +244,15 @@ def follower_check(pid, tier, scratch, replay, plan):
     # 3. conformance: replay into the real code
     results = replay_jobs(scratch, jobs)
     # a verdict needs reproducible behaviour: anything that died or timed out is re-run alone
-    redo = [i for i, r in enumerate(results) if r is None or r.get('died') or r.get('infra')]
+    # ... and so is anything whose verdict rests on a time limit (a loaded machine must not raise an alarm)
+    TIMED = {'free-not-quiescent', 'timeout'}
+    redo = [i for i, r in enumerate(results) if r is None or r.get('died') or r.get('infra') or (set(kinds_of(r)) & TIMED)]
     flaky = 0
     if redo and len(redo) <= 40:
         again = replay_jobs(scratch, [jobs[i] for i in redo])
         for i, r in zip(redo, again):
             if r is not None and not r.get('died'):
-                flaky += 1
+                flaky += 1 if r.get('ok') or not (set(kinds_of(r)) & TIMED) else 0
                 r['index'] = i
                 results[i] = r
     compared = sum((r or {}).get('compared', 0) for r in results)
